@@ -32,8 +32,10 @@ def main(tier, only=None):
                    e1.H("h_line_relative", "line/%s/advances-with-physical" % fk, unwind=14, defines=d, timeout=600),
                    e1.H("h_line_eof", "line/%s/eof-token-adjusted" % fk, unwind=14, defines=d, timeout=600),
                    e1.H("h_line_c11", "line/%s/c11-following-line-is-n" % fk, unwind=14, defines=d, timeout=600)]
+        hs.append(e1.H("h_line_macro_origin", "line/macro-origin/line-and-file-of-outermost-invocation", unwind=14, defines=("FORM=0", "__NO_CTYPE"), timeout=600))
+        chk.bounds += ["__LINE__/__FILE__ in a macro body: origin chains of depth 0..2 across three files with symbolic physical lines and symbolic #line offsets per file"]
         e1.run_set(chk, "c18/line.c", hs, workers=int(os.environ.get("VERIF_WORKERS", "8")))
-    chk.outside += ["positions across nested #include files and macro-origin chains (pointer-rich)",
+    chk.outside += ["positions across nested #include files beyond the macro-origin kernel (pointer-rich)",
                     ".loc/.file emission in codegen.c; columns in diagnostics (verror_at)",
                     "comments and UCNs: not part of the splice alphabet"]
     if os.environ.get("VERIF_VERBOSE"):
